@@ -110,7 +110,13 @@ func (b *bleveIndex) Search(terms []string) ([]string, error) {
 	}
 
 	query := bleve.NewQueryStringQuery(strings.Join(terms, " "))
-	search := bleve.NewSearchRequest(query)
+	// a search request returns the 10 best hits by default: ask for all of them
+	count, err := b.index.DocCount()
+	if err != nil {
+		return nil, err
+	}
+
+	search := bleve.NewSearchRequestOptions(query, int(count), 0, false)
 
 	res, err := b.index.Search(search)
 	if err != nil {
